@@ -14,6 +14,7 @@ Level B: impl model of the table *generator* `lr1.Grammar(start, productions).pa
                      is Python's string order); a state is a *set* of items, kept as a sorted
                      duplicate-free list.
 * `Gen.actions`    — the ACTION loop of `parser()` with conflict detection, goto trimming.
+* `Gen.allProductive` — `_unproductive_nonterminals` (empty or not): reported together with the conflicts.
 * `gen G`          — everything; `none` = out of fuel (never on the inputs of the harness).
 
 Tie: the driver op `GEN` prints the generated item sets, tables and the conflict flag in a
@@ -252,6 +253,6 @@ def gen (G : Grammar) : Option Gen.Out :=
         some { aut := { prods := G.all, action, goto, defaultErrors := [], strict := false, eoi := G.eoi }
                cert := { C with items := st.just }
                states := st.states
-               conflicts := rows.any Gen.hasConflict }
+               conflicts := rows.any Gen.hasConflict || !Gen.allProductive G }
 
 end Emboss.Lr1
